@@ -88,6 +88,7 @@ type xchain struct {
 	crashAt      int
 	crashIdx     int
 	forwarder    common.Address
+	forger       common.Address
 	pendingAdv   int
 	proposals    []*govInfo
 	registry     map[string]map[string]string // relayer address -> chain name -> the address registered for the relayer on that chain
